@@ -317,3 +317,25 @@ func TestC20(t *testing.T) {
 		},
 	})
 }
+
+func TestC08Seq(t *testing.T) {
+	RunSeq(t, SeqCheck{
+		Prop: "C08",
+		Profile: Profile{Name: "readiness", Weights: weightsWith(map[string]int{"claim": 22, "sequence": 22, "set": 26, "new_task": 16, "new_epic": 8, "prune_yes": 5, "sequence_rm": 5, "plan": 3}),
+			BadRef: 2, Spoil: 0, Results: 0, MinSteps: 8, MaxSteps: 32, EpicPct: 60, SeqEpicPct: 35, MixedPct: 30},
+		Rule: "random command histories (real commands) weighted to sequence / claim / state changes over tasks in epics; after every step the ready / blocked flags must equal the manual's definition evaluated on the shown state, and every `claim` / `claim --epic` must return the oldest ready task or no_ready exactly when none is; non-trivial = a claim was answered while an epic edge or a task edge existed" + distinctRule,
+		NonTrivial: func(h []stepInfo) bool {
+			return anyStep(h, func(s stepInfo) bool {
+				if s.Out.Op.Kind != "claim" || !s.Out.Accepted {
+					return false
+				}
+				for _, it := range s.Pre.Items {
+					if len(it.Deps) > 0 {
+						return true
+					}
+				}
+				return false
+			})
+		},
+	})
+}
